@@ -256,7 +256,7 @@ func (w *world) newAlias(class string, of *txInfo, key *dagx.Key, pal [][]byte, 
 		l[d.String()] = true
 	}
 	// the attacker knows the payload HASH only (it is the signed content of every transaction); NewTx derives it from the bytes
-	return w.register(&txInfo{tx: dagx.NewTx(key, true, of.payload, payloadType, sigTime, pal, prevs...), payload: of.payload, private: pal != nil,
+	return w.register(&txInfo{tx: dagx.NewTx(key, true, of.payload, payloadType, sigTime, pal, prevs...), payload: of.payload, private: len(pal) > 0,
 		class: class, listed: l, aliasOf: of})
 }
 
@@ -315,6 +315,9 @@ func aliasAttack(n *node) {
 			{"pal{attacker,victim}-with-junk-payload", encryptFor(both, victimKey, attKey), both, w.marker()},
 			{"public-without-payload", nil, nil, nil},
 			{"public-with-junk-payload", nil, nil, w.marker()},
+			// a "pal" header that is present but lists nobody
+			{"empty-pal-header-without-payload", [][]byte{}, nil, nil},
+			{"empty-pal-header-with-junk-payload", [][]byte{}, nil, w.marker()},
 		}
 		for _, v := range variants {
 			alias := w.newAlias("same-payload-hash/"+v.name, T, attackerKey, v.pal, v.listed, n.tip())
